@@ -20,6 +20,9 @@ RULE = (
     '(ratio columns: i16/32000 x stored base), (b) conversion on = off x unit factor of its class, (c) Min^2+Mid^2+Maj^2 = sigmav3d^2 in the same units where defined. '
     'non-trivial = distinct (tree, cleaned, column) triples with BoxSize != VelZSpace_to_kms and >= 2 rows'
 )
+RULE += (
+    ' Added after seeded round 9: catalogues of several equal-sized files; every multi-file tree also loaded as an explicit file list in descending superslab order.'
+)
 ASSUMPTIONS = [
     'float32 arithmetic: relations compared at relative 2e-6 (columns are float32 products of 2-4 float32/float64 factors); quadrature identity at relative 1e-3',
     "sigman_* is dimensionless in the data model but has always been multiplied by BoxSize by the loader and the statement names no base column: only 'on/off differ by a constant in {1, BoxSize}' is asserted",
